@@ -68,17 +68,17 @@ type taskCtx struct {
 }
 
 type probeCounts struct {
-	StaleLongerHit   int64
-	SharedROUse      int64
-	LockedUse        int64
-	FrameChecks      int64
-	ModelChecks      int64
-	SetOK, SetFail   int64
-	RoundTrips       int64
-	WellFormedChecks int64
+	StaleLongerHit     int64
+	SharedROUse        int64
+	LockedUse          int64
+	FrameChecks        int64
+	ModelChecks        int64
+	SetOK, SetFail     int64
+	RoundTrips         int64
+	WellFormedChecks   int64
 	ParseOK, ParseFail int64
-	Panics           int64
-	MutatingOnObj    int64 // mutating operations on one object (history length measure)
+	Panics             int64
+	MutatingOnObj      int64 // mutating operations on one object (history length measure)
 }
 
 func (a *probeCounts) add(b *probeCounts) {
@@ -117,23 +117,23 @@ type runCtx struct {
 }
 
 type runResult struct {
-	Viol     []Violation
-	Hash     uint64
-	SigHash  uint64
-	Stats    rt.Stats
-	Probes   probeCounts
-	AbortWhy string
+	Viol       []Violation
+	Hash       uint64
+	SigHash    uint64
+	Stats      rt.Stats
+	Probes     probeCounts
+	AbortWhy   string
 	NonTrivial bool
-	Trace    []string
-	PreemptAt []int
-	recs     []rec
-	eq       []eqPair
-	setPairs map[string]bool
-	consumed [3]int
-	pointHit []uint32
-	raceViol *Violation // kept apart: reported after the deterministic oracles
-	vault    []vaultEntry
-	errs     []errEntry
+	Trace      []string
+	PreemptAt  []int
+	recs       []rec
+	eq         []eqPair
+	setPairs   map[string]bool
+	consumed   [3]int
+	pointHit   []uint32
+	raceViol   *Violation // kept apart: reported after the deterministic oracles
+	vault      []vaultEntry
+	errs       []errEntry
 }
 
 func hexs(b string) string { return hex.EncodeToString([]byte(b)) }
@@ -162,7 +162,7 @@ func strHash(s string) uint64 {
 }
 
 func (x *runCtx) armed(p string) bool { return x.prop == p }
-func (x *runCtx) modelOn() bool      { return x.prop != "C14" }
+func (x *runCtx) modelOn() bool       { return x.prop != "C14" }
 
 // observe reads all metrics of an object (oracle observation, unscheduled).
 func observe(a verAPI, p unsafe.Pointer) map[string]string {
@@ -218,16 +218,16 @@ func panicText(r any) (string, uintptr, bool) {
 }
 
 type opOut struct {
-	res       string
-	parsed    unsafe.Pointer
-	err       error
-	panicked  bool
-	faultAddr uintptr
-	fault     bool
-	str       string // returned string (vector / get / nomen / rating)
+	res          string
+	parsed       unsafe.Pointer
+	err          error
+	panicked     bool
+	faultAddr    uintptr
+	fault        bool
+	str          string // returned string (vector / get / nomen / rating)
 	rtEq, rtGets bool
-	rtVec     string
-	f         float64
+	rtVec        string
+	f            float64
 }
 
 // callOp performs the library call(s) of one operation. It is used by the
